@@ -52,7 +52,7 @@ def main():
     jobs = 1
     if args[:1] == ["-j"]:
         jobs, args = int(args[1]), args[2:]
-    todo = [e for e in cat if not args or any(w in e["name"] for w in args)]
+    todo = [e for e in cat if (not args or any(w in e["name"] for w in args)) and not e.get("stale")]
     base = tempfile.mkdtemp(prefix="rux-mutants-")
     rows = []
     try:
